@@ -4,16 +4,26 @@ from ..device import Device
 from ..packet import Packet
 
 
+def _clone(packet: Packet) -> Packet:
+    """A copy that shares no header state with the original (dict-valued fields are copied too)."""
+    dup = copy(packet)
+    for name, value in vars(packet).items():
+        if isinstance(value, dict):
+            setattr(dup, name, dict(value))
+    return dup
+
+
 class Splitter(Device):
     def __init__(self):
         self.out1: Optional[Device] = None
         self.out2: Optional[Device] = None
 
     def put(self, packet: Packet):
+        dup = _clone(packet) if self.out2 else None
         if self.out1:
             self.out1.put(packet)
         if self.out2:
-            self.out2.put(copy(packet))
+            self.out2.put(dup)
 
     def run(self, env):
         raise RuntimeError("splitter should not execute run()")
@@ -29,11 +39,12 @@ class NSplitter(Device):
             raise TypeError("N should be an interger larger than 1")
 
     def put(self, packet: Packet):
+        dups = [_clone(packet) if out else None for out in self.outs[1:]]
         if self.outs[0]:
             self.outs[0].put(packet)
-        for out in self.outs[1:]:
+        for out, dup in zip(self.outs[1:], dups):
             if out:
-                out.put(copy(packet))
+                out.put(dup)
 
     def run(self, env):
         raise RuntimeError("splitter should not execute run()")
